@@ -368,7 +368,8 @@ func GenLeaf(r *hx.Rng, kind string) []byte {
 		n := r.Intn(3)
 		body := Cat(vf(0, 0), U32(uint32(n)))
 		for i := 0; i < n; i++ {
-			body = append(body, GenLeaf(r, []string{"avc1", "avc3", "hvc1", "hev1", "encv", "mp4a", "enca"}[r.Intn(7)])...)
+			body = append(body, GenLeaf(r, []string{"avc1", "avc3", "hvc1", "hev1", "encv", "mp4a", "enca",
+	"senc", "emsg", "elng", "kind"}[r.Intn(7)])...)
 		}
 		return Box(kind, body)
 	case "dref":
@@ -397,6 +398,40 @@ func GenLeaf(r *hx.Rng, kind string) []byte {
 			body = append(body, GenLeaf(r, "btrt")...)
 		}
 		return Box(kind, body)
+	case "senc":
+		cnt := r.Intn(4)
+		fl := uint32(r.Pick(0, 0, 2))
+		var raw []byte
+		for i := 0; i < cnt; i++ {
+			raw = append(raw, r.Bytes(8, nil)...)
+			if fl&2 != 0 {
+				k := r.Intn(3)
+				raw = append(raw, U16(uint16(k))...)
+				for j := 0; j < k; j++ {
+					raw = Cat(raw, U16(uint16(r.U64())), U32(r32(r)))
+				}
+			}
+		}
+		if r.Intn(8) == 0 {
+			raw = append(raw, r.Bytes(r.Intn(5), nil)...)
+		}
+		return Box(kind, Cat(vf(0, fl), U32(uint32(cnt)), raw))
+	case "emsg":
+		sc := append(r.Bytes(r.Intn(9), []byte("urn:mpeg")), 0)
+		va := append(r.Bytes(r.Intn(4), []byte("123")), 0)
+		data := r.Bytes(r.Intn(10), nil)
+		if r.Bool() {
+			return Box(kind, Cat(vf(0, 0), sc, va, U32(r32(r)), U32(r32(r)), U32(r32(r)), U32(r32(r)), data))
+		}
+		return Box(kind, Cat(vf(1, 0), U32(r32(r)), U64(r64(r)), U32(r32(r)), U32(r32(r)), sc, va, data))
+	case "elng":
+		lang := append(r.Bytes(r.Range(2, 8), []byte("en-USsv")), 0)
+		if r.Intn(5) == 0 {
+			return Box(kind, lang[len(lang)-r.Range(1, 3):]) // no full box header (short payload)
+		}
+		return Box(kind, Cat(vf(0, 0), lang))
+	case "kind":
+		return Box(kind, Cat(vf(0, 0), append(r.Bytes(r.Intn(9), []byte("urn:dash")), 0), append(r.Bytes(r.Intn(5), []byte("main")), 0)))
 	}
 	return Box("zzzz", r.Bytes(r.Intn(12), nil))
 }
@@ -446,7 +481,8 @@ var GenKinds = []string{"ftyp", "styp", "free", "skip", "mdat", "mfhd", "tfhd", 
 	"trex", "mdhd", "hdlr", "stts",
 	"stsc", "stsz", "stco", "stss", "co64", "sdtp", "ctts", "elst", "saiz", "saio", "sbgp", "prft", "tenc", "frma", "vmhd",
 	"smhd", "nmhd", "sthd", "mfro", "mehd", "tfra", "pssh",
-	"url ", "avcC", "btrt", "pasp", "colr", "clap", "schm", "cslg", "stsd", "dref", "avc1", "avc3", "hvc1", "hev1", "encv", "mp4a", "enca"}
+	"url ", "avcC", "btrt", "pasp", "colr", "clap", "schm", "cslg", "stsd", "dref", "avc1", "avc3", "hvc1", "hev1", "encv", "mp4a", "enca",
+	"senc", "emsg", "elng", "kind"}
 
 // Exhaustive returns well-formed boxes covering EVERY combination of the optional-field flag bits of the
 // boxes that have them (trun: 6 bits x version 0/1 x 0,1,3 samples; tfhd: 7 bits; tfdt, sidx, mvhd, tkhd,
